@@ -115,11 +115,15 @@ func C20_Gaps() {
 			gap = ""
 		}
 		canon += gap + toks[i].Text
+		// the separator replaces the canonical space (before the first token it
+		// is simply inserted)
 		switch i {
 		case g1:
-			gap += sep1
+			gap = sep1
 		case g2:
-			gap += sep2
+			if sep2 != "" {
+				gap = sep2
+			}
 		}
 		varied += gap + toks[i].Text
 	}
